@@ -89,6 +89,40 @@ pub fn prefix_replay(scn: &Scenario, n: u64) -> Option<Prefix> {
     Some(Prefix { snaps, last, iters, setup_ev, solve_ci, deterministic, runs })
 }
 
+/// *Stepwise* driver: one planner instance, `solve` called n times, each call given exactly one
+/// iteration by the virtual clock — the "interrupted and resumed" history. Linear cost, so it
+/// reaches deeper trees than prefix replay; the per-transition oracles hold for any history, so
+/// they do not depend on the generator surviving between calls (C07 decides that separately).
+pub fn stepwise(scn: &Scenario, n: u64) -> Option<Prefix> {
+    let setup_ci = scn.calls.iter().position(|c| matches!(c, CallSpec::Setup { .. }))?;
+    let mut s = scn.clone();
+    s.calls.truncate(setup_ci + 1);
+    for _ in 0..n {
+        s.calls.push(CallSpec::Solve { timeout_ns: 1_000_000_000_000, stalls: vec![Stall { at: Phase::Sample, nth: 1, ns: STALL_NS }] });
+    }
+    let out = run(&s, &RunOpts::default());
+    let mut snaps = vec![out.calls.get(setup_ci)?.snap.clone()?];
+    let mut iters = vec![];
+    let mut last_ci = setup_ci;
+    for ci in setup_ci + 1..out.calls.len() {
+        let c = &out.calls[ci];
+        let Some(snap) = c.snap.clone() else { break };
+        let Some(lo) = (c.ev_lo..c.ev_hi).find(|i| out.log[*i].phase() == Some(Phase::Sample)) else { break };
+        // exactly one sampling event per call, or the budget was not honoured
+        if (c.ev_lo..c.ev_hi).filter(|i| out.log[*i].phase() == Some(Phase::Sample)).count() != 1 {
+            break;
+        }
+        snaps.push(snap);
+        iters.push((lo, c.ev_hi));
+        last_ci = ci;
+        if !matches!(c.res, Res::Err(crate::sim::ErrKind::Timeout)) {
+            break;
+        }
+    }
+    let setup_ev = out.calls[setup_ci].ev_lo;
+    Some(Prefix { snaps, last: out.clone(), iters, setup_ev, solve_ci: last_ci, deterministic: true, runs: vec![out] })
+}
+
 // ------------------------------------------------------------------------------------------
 // state alphabets
 
@@ -358,9 +392,9 @@ impl Check for TreeProp {
     }
     fn required_probes(&self) -> Vec<&'static str> {
         match self.id {
-            "C15" => vec!["node_added", "scripted", "zero_length_edge", "ended_in_timeout", "ended_in_success"],
-            "C16" => vec!["node_added", "motion_rejected", "scripted", "connect_both_grew", "goal_bias_0", "goal_bias_1", "goal_bias_p"],
-            _ => vec!["node_added", "rewired", "parent_not_nearest", "equal_cost_tie", "rrt_twin"],
+            "C15" => vec!["node_added", "scripted", "zero_length_edge", "ended_in_timeout", "ended_in_success", "stepwise_history", "history", "enumerated_sequence"],
+            "C16" => vec!["node_added", "motion_rejected", "scripted", "connect_both_grew", "goal_bias_0", "goal_bias_1", "goal_bias_p", "stepwise_history", "enumerated_sequence"],
+            _ => vec!["node_added", "rewired", "parent_not_nearest", "equal_cost_tie", "rrt_twin", "stepwise_history", "enumerated_sequence", "blocked_candidate"],
         }
     }
 
@@ -376,11 +410,13 @@ impl Check for TreeProp {
             _ => vec![PlannerKind::RRT, PlannerKind::RRTConnect, PlannerKind::RRTStar, PlannerKind::RRTStar],
         };
         let kind = *rng.pick(&kinds);
-        let obstacle_free = self.id == "C17" && rng.chance(0.45);
+        let obstacle_free = self.id == "C17" && rng.chance(0.35);
+        // half of the seeded scenarios are deep stepwise histories in cluttered worlds
+        let deep = rng.chance(0.5);
         let o = GenOpts {
             planner: Some(kind),
-            families: if obstacle_free { vec!["open"] } else { vec!["open", "balls", "balls", "shell_door", "thin_wall"] },
-            max_iters: self.depth(tier),
+            families: if obstacle_free { vec!["open"] } else if deep { vec!["balls", "balls", "thin_wall", "shell_door"] } else { vec!["open", "balls", "balls", "shell_door", "thin_wall"] },
+            max_iters: if deep { self.depth(tier) * 4 } else { self.depth(tier) },
             min_frac: 0.01,
             goal_sampler: Some(GoalSampler::Fixed),
             ..Default::default()
@@ -416,8 +452,45 @@ impl Check for TreeProp {
                 return s;
             }
         }
-        let n = self.depth(tier);
-        let n = 3 + rng.below(n - 2);
+        if self.id == "C15" && index % 10 == 3 {
+            // API history: solve, solve again, re-setup with another problem, solve — the final
+            // trees are checked in full
+            let mut geo = geo_for(&scn.space).unwrap();
+            let fam = *rng.pick(&["goal_overlap", "goal_overlap", "balls", "goal_invalid"]);
+            let wb = gen::build_world(&mut geo, &mut rng, ext, fam);
+            scn.worlds.push(wb.world);
+            scn.problems.push(ProblemSpec {
+                starts: vec![wb.start],
+                goal: GoalSpec { target: wb.target, radius: wb.goal_radius * rng.range(1.0, 2.5), sampler: GoalSampler::Harness, sampler_seed: rng.u64() % 1_000_000 },
+                world: 1,
+            });
+            scn.problems[0].goal.sampler = GoalSampler::Harness;
+            scn.problems[0].goal.radius *= rng.range(1.0, 2.5);
+            let b = |rng: &mut Xo| crate::checks::solve_budget(1 + rng.below(20));
+            scn.calls = match rng.below(3) {
+                0 => vec![CallSpec::Setup { problem: 0 }, b(&mut rng), b(&mut rng), b(&mut rng)],
+                1 => vec![CallSpec::Setup { problem: 0 }, b(&mut rng), CallSpec::Setup { problem: 1 }, b(&mut rng), b(&mut rng)],
+                _ => vec![CallSpec::Setup { problem: 1 }, b(&mut rng), CallSpec::Setup { problem: 0 }, b(&mut rng), CallSpec::Setup { problem: 1 }, b(&mut rng)],
+            };
+            scn.planner.goal_bias = *rng.pick(&[0.05, 0.3]);
+            scn.params.insert("history".into(), 1.0);
+            scn.family = format!("history/{}", scn.family);
+            return scn;
+        }
+        let n = if deep { self.depth(tier) * 4 } else { self.depth(tier) };
+        let n = match &scn.calls[1] {
+            // keep the affordable budget the base generator chose
+            CallSpec::Solve { stalls, .. } => stalls.iter().filter(|s| s.at == Phase::Sample).map(|s| s.nth).max().unwrap_or(n).min(n).max(3),
+            _ => 3 + rng.below(n - 2),
+        };
+        if deep {
+            scn.params.insert("stepwise".into(), 1.0);
+            if kind == PlannerKind::RRTStar {
+                scn.planner.max_distance = ext * rng.range(0.05, 0.2);
+                scn.planner.search_radius = scn.planner.max_distance * rng.range(1.5, 4.0);
+                scn.planner.goal_bias = 0.0;
+            }
+        }
         let solve_ci = scn.calls.iter().position(|c| matches!(c, CallSpec::Solve { .. })).unwrap();
         set_budget(&mut scn, solve_ci, n);
         scn.params.insert("depth".into(), n as f64);
@@ -459,8 +532,15 @@ impl Check for TreeProp {
         if let Some(n) = scn.param("bias_stats") {
             return self.eval_bias(scn, n as u64, rep);
         }
+        if scn.param("history").is_some() {
+            return self.eval_history(scn, rep);
+        }
         let depth = scn.param("depth").unwrap_or(8.0) as u64;
-        let Some(px) = prefix_replay(scn, depth) else {
+        let is_stepwise = scn.param("stepwise").is_some();
+        if is_stepwise {
+            rep.probe("stepwise_history");
+        }
+        let Some(px) = (if is_stepwise { stepwise(scn, depth) } else { prefix_replay(scn, depth) }) else {
             rep.probe("prefix_failed");
             return rep;
         };
@@ -517,7 +597,7 @@ impl Check for TreeProp {
                 v.push(x);
             }
         }
-        if self.id == "C17" && v.is_empty() && scn.param("obstacle_free").is_some() {
+        if self.id == "C17" && v.is_empty() && scn.param("obstacle_free").is_some() && !is_stepwise {
             if let Err(x) = self.c17_twin(&cx, scn, &px, &mut rep) {
                 v.push(x);
             }
@@ -529,6 +609,99 @@ impl Check for TreeProp {
 }
 
 impl TreeProp {
+    // --------------------------------------------------------------------------------------
+    // C15 on API histories: the complete trees after every solve call
+
+    fn eval_history(&self, scn: &Scenario, mut rep: Report) -> Report {
+        let out = run(scn, &RunOpts::default());
+        rep.absorb(&out);
+        rep.probe("history");
+        let ev = Eval::new(scn, &out);
+        let pk = scn.planner.kind.name();
+        let g = &ev.geo;
+        let mut v = vec![];
+        'calls: for ci in ev.solve_calls() {
+            let call = &out.calls[ci];
+            let Some(snap) = &call.snap else { continue };
+            let Some((prob, setup_ev)) = ev.problem_at(ci) else { continue };
+            let Some(w) = ev.checker_at(ci) else { continue };
+            if matches!(call.res, Res::Err(crate::sim::ErrKind::InvalidStartState)) {
+                continue;
+            }
+            let acc = ev.accepted(setup_ev, call.ev_hi);
+            let b = ev.step_bound();
+            let (er, ea) = g.eps();
+            let trees: Vec<Vec<(St, Option<usize>, f64)>> = match snap {
+                Snap::Connect(..) => vec![tree_of(snap, 0), tree_of(snap, 1)],
+                _ => vec![tree_of(snap, 0)],
+            };
+            let grown = trees.iter().any(|t| t.len() > 1);
+            rep.transitions += trees.iter().map(|t| t.len() as u64).sum::<u64>();
+            if grown {
+                rep.nontrivial = true;
+            }
+            for (ti, t) in trees.iter().enumerate() {
+                if t.is_empty() || t[0].1.is_some() {
+                    v.push(viol("C15", format!("C15/bad_root/{pk}"), format!("call #{ci}: tree {ti} is empty or its node 0 has a parent")));
+                    break 'calls;
+                }
+                if ti == 0 && !bits_eq(&t[0].0, &prob.starts[0]) {
+                    v.push(viol("C15", format!("C15/root_not_start/{pk}"), format!("call #{ci}: the start tree's root is not the installed start state")));
+                    break 'calls;
+                }
+                for (j, node) in t.iter().enumerate() {
+                    // the goal tree's root is validated by the first iteration that runs
+                    let pending_root = ti == 1 && j == 0 && !grown;
+                    if !pending_root && !g.valid(w, &node.0) {
+                        v.push(viol(
+                            "C15",
+                            format!("C15/invalid_node/{pk}/{}", if j == 0 { "root" } else { "node" }),
+                            format!("call #{ci}: node {j} of tree {ti} {} is rejected by the checker in force", fmt_state(&node.0)),
+                        ));
+                        break 'calls;
+                    }
+                    let Some(p) = node.1 else {
+                        if j != 0 {
+                            v.push(viol("C15", format!("C15/second_root/{pk}"), format!("call #{ci}: node {j} has no parent")));
+                            break 'calls;
+                        }
+                        continue;
+                    };
+                    if p >= t.len() || p == j {
+                        v.push(viol("C15", format!("C15/parent_out_of_range/{pk}"), format!("call #{ci}: node {j} has parent {p}")));
+                        break 'calls;
+                    }
+                    let d = g.d(&t[p].0, &node.0);
+                    if !(d <= b * (1.0 + er) + ea) {
+                        v.push(viol("C15", format!("C15/edge_too_long/{pk}"), format!("call #{ci}: edge {p}->{j} has length {d} > extension bound {b}")));
+                        break 'calls;
+                    }
+                    if let Some((gap, at)) = ev.coverage_gap(&acc, &t[p].0, &node.0) {
+                        v.push(viol(
+                            "C15",
+                            format!("C15/edge_not_validated/{pk}/history"),
+                            format!("call #{ci}: edge {p}->{j} of tree {ti} (length {d}) has an unvalidated stretch of {gap} at {at} (queries accepted since the last setup)"),
+                        ));
+                        break 'calls;
+                    }
+                    // acyclic
+                    let mut cur = j;
+                    let mut steps = 0;
+                    while let Some(q) = t[cur].1 {
+                        cur = q;
+                        steps += 1;
+                        if q >= t.len() || steps > t.len() {
+                            v.push(viol("C15", format!("C15/cycle/{pk}"), format!("call #{ci}: parent links from node {j} do not reach the root")));
+                            break 'calls;
+                        }
+                    }
+                }
+            }
+        }
+        rep.violations = v;
+        rep
+    }
+
     // --------------------------------------------------------------------------------------
     // C15
 
@@ -820,6 +993,33 @@ impl TreeProp {
                 rep.probe("equal_cost_tie");
             }
         }
+        // 4b. obstructed worlds: a strictly cheaper candidate that was not chosen must have been
+        // rejected — the history must show a rejected query (validity or bounds) on its segment
+        let rejected: Vec<&St> = px.last.log[lo..hi]
+            .iter()
+            .filter_map(|e| match e {
+                Ev::Valid(s, false) | Ev::OutOfBounds(s) => Some(s),
+                _ => None,
+            })
+            .collect();
+        if !free {
+            for j in 0..n {
+                if j == np || !(dn[j] < r * (1.0 - 1e-9)) {
+                    continue;
+                }
+                let via = t0[j].2 + dn[j];
+                if via < nc - rel(nc) * 10.0 - cx.tol(nc) {
+                    rep.probe("blocked_candidate");
+                    if !rejected.iter().any(|q| g.on_segment(&t0[j].0, ns, q, dn[j]).is_some()) {
+                        return Err(viol(
+                            "C17",
+                            sig("cheaper_parent_ignored"),
+                            format!("iteration {it}: neighbour {j} offers cost {via} < chosen {nc} and no query on its motion to the new node was rejected"),
+                        ));
+                    }
+                }
+            }
+        }
         // 5. rewiring
         for j in 0..n {
             let (s0, p0, c0) = (&t0[j].0, t0[j].1, t0[j].2);
@@ -831,10 +1031,20 @@ impl TreeProp {
                 if c0.to_bits() != c1.to_bits() {
                     return Err(viol("C17", sig("cost_changed_without_rewire"), format!("iteration {it}: node {j} kept its parent but its cost changed {c0} -> {c1}")));
                 }
-                if free && j != np && dn[j] < r * (1.0 - 1e-9) {
+                if j != np && dn[j] < r * (1.0 - 1e-9) {
                     let via = nc + dn[j];
-                    if via < c0 - rel(c0) * 10.0 {
-                        return Err(viol("C17", sig("missed_rewire"), format!("iteration {it} (obstacle-free): node {j} (cost {c0}) would cost {via} through the new node but was not re-parented")));
+                    if via < c0 - rel(c0) * 10.0 - cx.tol(c0) {
+                        if free {
+                            return Err(viol("C17", sig("missed_rewire"), format!("iteration {it} (obstacle-free): node {j} (cost {c0}) would cost {via} through the new node but was not re-parented")));
+                        }
+                        rep.probe("blocked_rewire");
+                        if !rejected.iter().any(|q| g.on_segment(ns, s0, q, dn[j]).is_some()) {
+                            return Err(viol(
+                                "C17",
+                                sig("missed_rewire"),
+                                format!("iteration {it}: node {j} (cost {c0}) would cost {via} through the new node, was not re-parented, and no query on that motion was rejected"),
+                            ));
+                        }
                     }
                 }
                 continue;
